@@ -178,7 +178,7 @@ def step (f : Full) (toks : List String) : Full × String :=
       let rec tdrain (fuel : Nat) (q : TimerQueue.TQ) (acc : List Nat) : List Nat :=
         match fuel with
         | 0 => acc.reverse
-        | fuel+1 => match TimerQueue.getptr q (2^63 - 1) (2^63 - 1) with
+        | fuel+1 => match TimerQueue.getptr q (2^40) 999999 with
           | (q', some (_, ptr)) => tdrain fuel { q' with h := { q'.h with log := [] } } (ptr :: acc)
           | (_, none) => acc.reverse
       let ptrs := tdrain s.q.h.a.size s.q []
